@@ -805,3 +805,51 @@ def rule_element_count_from_type_size(ctx):
                 ctx.holds("ELEMCOUNT", key, f.where(line), "the element count handed to %s is `%s`, a quotient by an element size" % (name, render(q)[:50]), nontrivial=True)
     ctx.floor("ELEMCOUNT", 2, n, "(element counts that are quotients)")
     return n
+
+
+def rule_assembled_byte_unsigned(ctx):
+    """BYTESIGN (C06): a 16-bit value is put together from two file bytes as `(hi << 8) + lo`.  The low byte enters an `int`
+    expression, so what it contributes depends on the type it is read through: read through `unsigned char` (or uint8, or
+    masked with 0xff) it adds 0..255; read through plain `char` it is sign-extended and every value whose low byte is >= 0x80
+    comes out 256 too small.  Every byte that is added or or-ed to a shifted value is read through an unsigned 8-bit type."""
+    from .facts import unseen
+    prog = ctx.prog
+    n = 0
+
+    def elem(e):
+        e = unseen(e)
+        if kind(e) == "deref":
+            return e[2] if len(e) > 2 and isinstance(e[2], str) else None
+        if kind(e) == "idx":
+            return e[3] if len(e) > 3 and isinstance(e[3], str) else None
+        return None
+
+    for f in prog.lib_funcs():
+        k = 0
+        seen = set()
+        for _b, _i, s, x in f.nodes(True):
+            if x[0] != "bin" or x[1] not in ("+", "|"):
+                continue
+            l, r = unseen(x[2]), unseen(x[3])
+            for a, b in ((l, r), (r, l)):
+                if not any(y[0] == "bin" and y[1] == "<<" for y in walk(a, True)):
+                    continue
+                t = elem(b)
+                if t is None:
+                    continue
+                line = s.get("l", f.line)
+                if (line, render(b)) in seen:
+                    continue
+                seen.add((line, render(b)))
+                k += 1
+                n += 1
+                key = "BYTESIGN:%s#%d" % (f.name, k)
+                tt = t.replace("const ", "").strip()
+                if tt in ("unsigned char", "uint8", "uint8_t", "u_char"):
+                    ctx.holds("BYTESIGN", key, f.where(line), "the byte joined to the shifted value is read through `%s`" % tt, nontrivial=True)
+                elif tt in ("char", "signed char", "int8", "int8_t"):
+                    ctx.violated("BYTESIGN", key, f.where(line), "`%s` is read through `%s` and added to a shifted value: bytes >= 0x80 are sign-extended and the assembled value is 256 too small" % (render(b)[:30], tt))
+                else:
+                    ctx.holds("BYTESIGN", key, f.where(line), "the operand joined to the shifted value has type `%s` (not a signed byte)" % tt, nontrivial=False)
+    ctx.floor("BYTESIGN", 3, n, "(bytes joined to a shifted value)")
+    return n
